@@ -31,3 +31,15 @@ pub mod solidadapter;
 #[cfg(feature = "sqlitedbadapter")]
 pub mod sqliteadapter;
 mod utils;
+
+/// Verification hooks: re-exports of internal items so that an external harness can
+/// exercise them directly. Compiled only with the `verif-hooks` feature.
+#[cfg(feature = "verif-hooks")]
+pub mod verif_hooks {
+    pub use crate::revision::Revision;
+    pub use crate::revisiontree::RevisionTree;
+    pub use crate::utils::{
+        apply_diff_patch, digest_bytes, digest_object, digest_string, flatten, make_diff_patch,
+        merge_arrays, unflatten,
+    };
+}
